@@ -57,9 +57,10 @@ def _parse(out, res):
     elif re.search(r'Error: Action property (\S+)', out):
         res.kind = "property"
         res.name = re.search(r'Error: Action property (\S+)', out).group(1)
-    elif "Temporal properties were violated" in out:
+    elif "Temporal properties were violated" in out or re.search(r'Error: Temporal property (\S+) was violated', out):
         res.kind = "property"
-        res.name = "temporal"
+        mt = re.search(r'Error: Temporal property (\S+) was violated', out)
+        res.name = mt.group(1) if mt else "temporal"
     elif re.search(r'Error: Postcondition (\S+)', out):
         res.kind = "postcondition"
         res.name = re.search(r'Error: Postcondition (\S+)', out).group(1)
@@ -96,7 +97,10 @@ def run(ctx, module, cfg, *, spec_dir=SPEC, workers=None, simulate=None, depth=N
     import time
     d = ctx.subdir(name or ("tlc_" + module))
     for f in glob.glob(os.path.join(spec_dir, "*.tla")) + glob.glob(os.path.join(spec_dir, "*.cfg")):
-        shutil.copy(f, d)
+        try:
+            shutil.copy(f, d)
+        except FileNotFoundError:   # another process removed a file between glob and copy
+            pass
     for f in (extra_files or []):
         shutil.copy(f, d)
     if workers is None:
